@@ -535,6 +535,26 @@ def run(ctx):
                 m = pip.nodes[e]
                 if m["k"] == "bin" and m["op"] == "=" and pip.fields_of(m["l"])[-1:] == ("state",) and c06.enum_name(pip, m["r"]) == "query_state_failed":
                     okp = True
+    # ... and only a query that has not succeeded: the resolver's callback may have stored the answer in the same
+    # pass (ares_process just before); a success is never overwritten
+    guarded = False
+    for b, i, e, lhs, rhs, op in pip.stores():
+        if rhs is not None and pip.fields_of(lhs)[-1:] == ("state",) and c06.enum_name(pip, rhs) == "query_state_failed":
+            for bb, cond in C.cond_blocks(pip):
+                l, op2, r = C.cond_atom(pip, cond, True)
+                if isinstance(r, tuple) or pip.fields_of(l)[-1:] != ("state",):
+                    continue
+                en = c06.enum_name(pip, r)
+                for lab in ("T", "F"):
+                    holds = op2 if lab == "T" else {"==": "!=", "!=": "=="}.get(op2)
+                    if b.id in C.only_via_edge(pip, bb, lab) and ((en == "query_state_successful" and holds == "!=") or (en == "query_state_in_progress" and holds == "==")):
+                        guarded = True
+    r5.instance("process_in_progress: success is final")
+    if guarded:
+        r5.ok("the timeout marks the query failed only if it has not succeeded in the same pass", "control dependence on the state test")
+    else:
+        r5.violation("process_in_progress:timeout-overwrites-success", "the overall timeout stores `failed` without testing that the query has not just succeeded: "
+                     "an answer processed in the same pass as the deadline (an application that serves the socket late) is turned into ENOENT", loc=pip.file)
     if okp:
         r5.ok("expiry of the overall resolver timer marks the query failed (=> ENOENT)", "control dependence on the expired edge")
     else:
